@@ -862,6 +862,25 @@ public:
         return out;
     }
 
+    // Which verdicts the filter expression may legitimately have returned for this statement.  The
+    // thresholds may have changed while the statement was alive; a compound expression reads its
+    // leaves one after the other, so each leaf may have seen any of the values its threshold had
+    // in that time (the leaves are not read under one common snapshot).
+    static void possible_verdicts(int expr, const Stmt& s, bool& any_true, bool& any_false)
+    {
+        std::set<int> v[3];
+        for (auto& th : s.th_states)
+            for (int n = 0; n < 3; n++)
+                v[n].insert(th[static_cast<size_t>(n)]);
+        for (int a : v[0])
+            for (int b : v[1])
+                for (int c : v[2])
+                {
+                    int th[3] = { a, b, c };
+                    (ref_eval(expr, th, s.sev, s.tag) ? any_true : any_false) = true;
+                }
+    }
+
     void judge(const Plan& plan, const Config& cfg, const LoggerEntry& le, bool mt, Scheduler& sch)
     {
         (void)plan;
@@ -925,8 +944,7 @@ public:
                     {
                         // never formatted: lost if every threshold state it lived through accepts it
                         bool any_true = false, any_false = false;
-                        for (auto& th : s.th_states)
-                            (ref_eval(le.expr, th.data(), s.sev, s.tag) ? any_true : any_false) = true;
+                        possible_verdicts(le.expr, s, any_true, any_false);
                         if (!any_true || any_false)
                             continue;
                     }
@@ -1012,8 +1030,7 @@ public:
                     return flag("C05/tag", sig + " at-filter", s.op, "the filter was shown tag '" + s.gate_tag + "' for a statement tagged '" + want_gate_tag + "'");
             }
             bool any_true = false, any_false = false;
-            for (auto& th : s.th_states)
-                (ref_eval(le.expr, th.data(), s.sev, s.tag) ? any_true : any_false) = true;
+            possible_verdicts(le.expr, s, any_true, any_false);
             bool ambiguous = any_true && any_false;
             if (ambiguous)
                 f_flip_ambiguous++;
